@@ -13,6 +13,14 @@ import (
 
 func init() { Registry["C18"] = checkC18 }
 
+// urlAttrs: HTML attributes whose value is a URL (or a list of URLs).
+var urlAttrs = map[string]bool{
+	"href": true, "src": true, "background": true, "action": true, "cite": true, "poster": true,
+	"data": true, "longdesc": true, "usemap": true, "codebase": true, "classid": true, "profile": true,
+	"manifest": true, "icon": true, "xlink:href": true, "lowsrc": true, "dynsrc": true, "srcset": true,
+	"ping": true, "archive": true,
+}
+
 const sanRel = "pkg/webui/sanitize"
 
 var forbiddenElements = map[string]bool{"script": true, "style": true, "iframe": true, "frame": true, "frameset": true, "object": true,
@@ -126,6 +134,9 @@ func (c *Ctx) c18Policy() {
 					la := strings.ToLower(a)
 					if strings.HasPrefix(la, "on") || la == "srcdoc" || la == "formaction" {
 						probs = append(probs, "AllowAttrs(\""+a+"\") at "+p.InstrPos(in)+": an event-handler / active attribute is allowed")
+					}
+					if urlAttrs[la] {
+						probs = append(probs, "AllowAttrs(\""+a+"\") at "+p.InstrPos(in)+": a URL-valued attribute is allowed by hand; bluemonday checks URL schemes only for the attributes and elements of its own link policy, so a javascript: URL in this attribute is passed through")
 					}
 				}
 			}
